@@ -565,6 +565,36 @@ func interleavingCases(maxN int) []hCase {
 			}
 		}
 	}
+	// the same with an append / a prepend at every position: a modification that succeeds extends
+	// one write's whole value (both sets with the same number of chunks, so that all chunks of a
+	// mixed state are present)
+	for n := 1; n <= maxN && n <= 2; n++ {
+		la, lb := (n-1)*ds+9, (n-1)*ds+200
+		da, db := genBytes(uint64(300+n), la), genBytes(uint64(400+n), lb)
+		pa, pb := captureSet("key", da, 0xAAAA), captureSet("key", db, 0xBBBB)
+		wr := []rawWrite{{"key", da, 0xAAAA}, {"key", db, 0xBBBB}}
+		for _, m := range merges(len(pa), len(pb)) {
+			for pos := 1; pos <= len(m); pos++ {
+				for _, cat := range []string{"append", "prepend"} {
+					c := hCase{Keys: []string{"key"}, Spare: []int{0}, Written: wr}
+					ia, ib := 0, 0
+					for _, ch := range m[:pos] {
+						var pt rawPut
+						if ch == 'A' {
+							pt = pa[ia]
+							ia++
+						} else {
+							pt = pb[ib]
+							ib++
+						}
+						c.Ops = append(c.Ops, hOp{Kind: "get", Key: 0, Keys: []int{0}, Put: []rawPut{pt}})
+					}
+					c.Ops = append(c.Ops, hOp{Kind: cat, Key: 0, Len: 5, Seed: 77}, hOp{Kind: "get", Key: 0, Keys: []int{0}})
+					out = append(out, c)
+				}
+			}
+		}
+	}
 	return out
 }
 
